@@ -3,6 +3,7 @@
 from __future__ import annotations
 
 import inspect
+import unicodedata
 from functools import cache
 from typing import Any
 
@@ -38,7 +39,8 @@ __all__ = [
 def find_rule(source: Any, name: str) -> Func | None:
     # NOTE: in this order (a set would make the choice between rules `a` and `_a_` depend on the hash seed)
     for rulename in (name, name.strip('_'), f'_{name}_', f'_{name}'):
-        action = getattr(source, safe_name(rulename), None)
+        # NOTE: Python keeps identifiers (so the rule methods) in their NFKC form
+        action = getattr(source, unicodedata.normalize('NFKC', safe_name(rulename)), None)
         if callable(action):
             return action
     return None
